@@ -14,7 +14,7 @@ def garg_strs(t):
     return tuple(ty_str(a) for a in t['f']['args'] if a.get('k') != 'region')
 
 
-@rule('I1', props=['C03', 'C09', 'C01'], floor=2, configs=('all', 'default'))
+@rule('I1', props=['C03', 'C09', 'C01', 'C08'], floor=2, configs=('all', 'default'))
 def i1_next_fold_agree(prog):
     """result::Iter: `next` and the specialised `fold` are siblings — fold first drains the partially
     consumed per-archetype iterator (`current_results_iter`), then visits archetypes selected by the
@@ -610,7 +610,7 @@ def c9f_results_folder(prog):
     return r
 
 
-@rule('I3', props=['C03', 'C09', 'C05'], floor={'all': 3, 'default': 2}, configs=('all', 'default'))
+@rule('I3', props=['C03', 'C09', 'C05', 'C08'], floor={'all': 3, 'default': 2}, configs=('all', 'default'))
 def i3_result_selection(prog):
     """Which archetypes a query result draws from is decided by `And<Views, Filter>` and nothing weaker: inside
     every method (and closure) of the query result iterators — sequential Iter, parallel ParIter and its
@@ -760,4 +760,65 @@ def l2_world_results_borrow_world(prog):
         if ins[0].get('r') not in meth:
             r.viol('L2', 'World::%s/result-not-tied-to-receiver' % f.name, f.loc(),
                    'World::%s declares the lifetime(s) %s for its result but takes `&%s self`: the result does not keep the world borrowed' % (f.name, ', '.join(meth), ins[0].get('r')))
+    return r
+
+
+@rule('W9', props=['C05', 'C04', 'C01', 'C17'], floor=1, configs=('all', 'default'))
+def w9_replace_drops_old(prog):
+    """`set_component` of the cell that holds the component (index marker `Contained`) replaces element `index` of
+    column 0 in place: on every returning path the `component` parameter is stored exactly once, into an element of
+    the slice/Vec rebuilt from slot 0 with the step's `length`, at `index`; and the store is a drop-and-assign (the
+    old value is dropped at that very place first, or handed out by `mem::replace`/`swap`), never a raw
+    `ptr::write`/`copy` over a live value (which leaks the old component, C04/C05)."""
+    r = Result()
+    S = pathsem.strip_refs
+    n = 0
+    for imp in prog.facts['impls']:
+        if not imp['trait'] or not imp['trait']['path'].endswith('registry::contains::component::sealed::Sealed') or imp['self'].get('k') != 'tuple':
+            continue
+        ta = [a for a in imp['trait']['args'][1:] if a.get('k') != 'region']
+        if not any(is_adt(a, 'registry::contains::Contained') for a in ta):
+            continue
+        fs = [f for f in prog.impl_methods(imp) if f.name == 'set_component']
+        if not fs:
+            r.viol('W9', 'set_component/missing', '-', 'set_component of the containing cell not found')
+            continue
+        f = fs[0]
+        n += 1
+        r.inst('set_component for (C, R) [Contained]')
+        E = pathsem.analyse(prog, f)
+        rets = [p for p in E.paths if p.ended == 'return']
+        rep = set()
+
+        def once(k, ln, msg, f=f, rep=rep):
+            if k not in rep:
+                rep.add(k)
+                r.viol('W9', 'set_component/' + k, f.loc(ln), msg)
+        if E.truncated or not rets:
+            once('not-analysable', None, 'path enumeration cut off')
+            continue
+        comp = ('p', 2, f.body.local_name(2) or '')
+        idx = ('p', 1, f.body.local_name(1) or '')
+        cols = ('p', 3, f.body.local_name(3) or '')
+        for p in rets:
+            stores = [e for e in p.events if e['k'] == 'store' and S(e['value']) == comp and pathsem.mentions(e['loc'], lambda t: t == cols)]
+            raw = p.calls(lambda e: e['name'] in ('write', 'write_unaligned', 'write_volatile', 'copy_nonoverlapping', 'copy', 'write_bytes', 'swap_nonoverlapping')
+                          and e['path'].startswith('core::') and any(pathsem.mentions(a_, lambda t: t == cols) for a_ in e['args']))
+            if raw:
+                once('overwrite-without-drop', raw[0]['ln'], 'the component is written over the stored one with a raw %s: the replaced value is never dropped (leak), although Entry::add on a present component replaces it' % raw[0]['name'])
+                continue
+            swaps = p.calls(lambda e: e['name'] in ('replace', 'swap') and e['path'].startswith('core::mem::') and any(pathsem.mentions(a_, lambda t: t == cols) for a_ in e['args']))
+            if swaps:
+                continue
+            if len(stores) != 1:
+                once('store-count', None, 'the component must be stored into its column exactly once (found %d stores)' % len(stores))
+                continue
+            st_ = stores[0]
+            if not pathsem.mentions(st_['loc'], lambda t: t == idx):
+                once('wrong-row', st_['ln'], 'the component is not stored at row `index`')
+            drops = [e for e in p.events if e['k'] == 'drop' and e['i'] < st_['i'] and e.get('loc') is not None and S(e['loc']) == S(st_['loc'])]
+            if not drops:
+                once('overwrite-without-drop', st_['ln'], 'the stored component is overwritten without being dropped first')
+    if not n:
+        r.viol('W9', 'set_component/missing', '-', 'no `Contained` cell implements set_component')
     return r
